@@ -107,6 +107,8 @@ def make_axis(kind, n, variant=0):
         return A.NonLinearAxis(label="energy", values=tuple(float(i * i) + v for i in range(n)), units="eV")
     if kind == "wavevector":
         return A.WaveVectorAxis(label="q", values=tuple((0.1 * i, 0.2 * v) for i in range(n)))
+    if kind == "mixedvalues":  # ordinal values of mixed shape: a label first, index ranges after it
+        return A.OrdinalAxis(label="window", values=tuple("full" if i == 0 else (i - 1 + v, i + 1 + v) for i in range(n)))
     if kind == "intvalues":
         return A.OrdinalAxis(label="Iteration", values=tuple(range(v, n + v)))
     if kind == "realspace":
